@@ -1,6 +1,7 @@
 // ops of the `array` family (C01 data round trip; DataView part of C17)
 // Element values travel as tokens: integers decimal, bool 0/1, float as f<8 hex>, double as d<16 hex>, strings x<hex>.
 #include "common.hpp"
+#include <nix/hydra/multiArray.hpp>
 #include <cstdio>
 #include <cstring>
 
@@ -116,12 +117,54 @@ template<> struct Buf<bool> { typedef std::vector<uint8_t> type; };
 template<typename V> void fillSentinel(std::vector<V> &buf) { if (!buf.empty()) std::memset(buf.data(), 0x5A, buf.size() * sizeof(V)); }
 template<> void fillSentinel<std::string>(std::vector<std::string> &buf) { for (auto &x : buf) x = "\x5a\x5a"; }
 
+// Whole-array transfers alternate between the raw-pointer API and the container API with a boost::multi_array (the container of the
+// library's own examples): the shape then comes from data_traits<multi_array>::shape, not from the caller.
+unsigned wholeTransfers = 0;
+bool isWhole(const nix::DataSet &ds, const nix::NDSize &count, const nix::NDSize &offset) {
+    nix::NDSize ext = ds.dataExtent();
+    if (ext.size() < 1 || ext.size() > 3 || count.size() != ext.size() || offset.size() != ext.size()) return false;
+    for (size_t i = 0; i < ext.size(); i++) if (count[i] != ext[i] || offset[i] != 0 || ext[i] == 0) return false;
+    return true;
+}
+template<typename T, size_t N> void writeMA(nix::DataSet *t, const nix::NDSize &shape, const std::vector<std::string> &vals) {
+    std::vector<size_t> ext(N);
+    for (size_t i = 0; i < N; i++) ext[i] = (size_t) shape[i];
+    boost::multi_array<T, N> ma(ext);
+    for (size_t i = 0; i < ma.num_elements(); i++) ma.data()[i] = Conv<T>::from(vals[i]);
+    t->setData(ma);
+}
+template<typename T, size_t N> std::vector<std::string> readMA(const nix::DataSet *s) {
+    boost::multi_array<T, N> ma;
+    s->getData(ma);
+    std::vector<std::string> out;
+    for (size_t i = 0; i < ma.num_elements(); i++) out.push_back(Conv<T>::to((T) ma.data()[i]));
+    return out;
+}
+template<typename T> struct MA {
+    static void write(nix::DataSet *t, const nix::NDSize &shape, const std::vector<std::string> &vals) {
+        if (shape.size() == 1) writeMA<T, 1>(t, shape, vals); else if (shape.size() == 2) writeMA<T, 2>(t, shape, vals); else writeMA<T, 3>(t, shape, vals);
+    }
+    static std::vector<std::string> read(const nix::DataSet *s, size_t rank) {
+        return rank == 1 ? readMA<T, 1>(s) : rank == 2 ? readMA<T, 2>(s) : readMA<T, 3>(s);
+    }
+    static const bool usable = true;
+};
+template<> struct MA<std::string> {
+    static void write(nix::DataSet *, const nix::NDSize &, const std::vector<std::string> &) {}
+    static std::vector<std::string> read(const nix::DataSet *, size_t) { return {}; }
+    static const bool usable = false;
+};
+
 struct Writer {
     nix::DataSet *target; nix::DataType dt; nix::NDSize count, offset; const std::vector<std::string> *vals;
     template<typename T> std::string run() {
         // the buffer handed to the library must hold what the request transfers
         size_t need = count.size() ? nelms(count) : nelms(target->dataExtent());
         if (vals->size() < need) throw ProtoError("write buffer shorter than the request");
+        if (MA<T>::usable && vals->size() == need && isWhole(*target, count, offset) && (wholeTransfers++ % 2 == 0)) {
+            MA<T>::write(target, count, *vals);
+            return "";
+        }
         typename Buf<T>::type buf(vals->size());
         for (size_t i = 0; i < vals->size(); i++) buf[i] = Conv<T>::from((*vals)[i]);
         target->setData(dt, buf.data(), count, offset);
@@ -133,6 +176,9 @@ struct Reader {
     template<typename T> std::string run() {
         size_t need = count.size() ? nelms(count) : nelms(source->dataExtent());
         if (n < need) throw ProtoError("read buffer shorter than the request");
+        if (MA<T>::usable && n == need && isWhole(*source, count, offset) && (wholeTransfers++ % 2 == 0)) {
+            return listTok(MA<T>::read(source, count.size()));
+        }
         typename Buf<T>::type buf(n);
         // the buffer a client hands in is not zeroed: fill it with a sentinel so that a read which leaves elements
         // untouched (instead of delivering zeros for never-written data) is visible
